@@ -5,14 +5,20 @@ progress when the shared document is only read (const access), and must find the
 shared document is passed as Filter(JsonDocument&) (non-vacuity).  Implementation: 8 threads each replay a
 spec-annotated behaviour stream (DocumentFeed.tla: expected observation after every operation) on their own
 documents, on the shared default allocator, with yields, while copying from / filtering by / serializing a
-document shared through JsonVariantConst; every per-thread execution must match the sequential
-expectation (that is the property), for several seeds; the binary is built with ThreadSanitizer (any data
+document shared through JsonVariantConst, and while deserializing / serializing its share of reader cases
+computed by TLC from JsonReader.tla and MsgPack.tla (escapes, surrogate pairs, numbers, MessagePack); every
+per-thread execution must match the sequential expectation (that is the property), for several seeds; the binary is built with ThreadSanitizer (any data
 race inside the library aborts the run) and once more with AddressSanitizer."""
 import os
+import random
 import subprocess
 
 import vlib
 from checks import doccommon as dc
+from checks import readercommon as rc
+from checks import readergen as rg
+from checks import msgpackcommon as mc
+from checks import msgpackgen as mg
 
 
 def run(tier):
@@ -43,6 +49,28 @@ def run(tier):
     nthreads = 8
     r, streams, n = dc.generate_feed(chk, "tfeed", wd, candidates=16000 if quick else 160000, procs=nthreads, nd=2, nr=2)
     chk.add_tlc(r)
+    # reader cases (inputs with \\u escapes and surrogate pairs, every number spelling, MessagePack encodings):
+    # expected code and value computed by TLC from JsonReader.tla / MsgPack.tla
+    rng = random.Random(vlib.seed() + 20)
+    D = rc.OPTS_DEFAULT
+    wants = []
+    jl = rg.gen_valid(rng, D, 1200 if quick else 12000, wants)
+    jw = dict(enumerate(wants))
+    jl += rg.gen_escape_offsets(D, 40)
+    jl += rg.gen_mutants(rng, D, 300 if quick else 3000)
+    jl = [dict(l, f=rg.TRUE) for l in jl]
+    r1, jcases, _ = rc.feed_cases(chk, "tcases-json", wd, jl, jw)
+    chk.add_tlc(r1)
+    wants = []
+    ml = mg.gen_valid(rng, 400 if quick else 4000, wants)
+    r2, mcases, _ = mc.feed_cases(chk, "tcases-msgpack", wd, ml, dict(enumerate(wants)))
+    chk.add_tlc(r2)
+    cases = os.path.join(wd, "tcases.ndjson")
+    with open(cases, "w") as out:
+        for fp in (jcases, mcases):
+            with open(fp) as f:
+                out.write(f.read())
+            os.remove(fp)
     runs = 3 if quick else 40
     env = dict(os.environ, TSAN_OPTIONS="halt_on_error=1 exitcode=66 second_deadlock_stack=1")
     ops = 0
@@ -50,7 +78,7 @@ def run(tier):
         for label, b in (("tsan", tsan), ("asan", asan)) if k % 3 == 0 or not quick else (("tsan", tsan),):
             rotated = streams[k % nthreads:] + streams[:k % nthreads]
             try:
-                p = subprocess.run([b, str(vlib.seed() * 100 + k)] + rotated, capture_output=True, text=True, timeout=900,
+                p = subprocess.run([b, str(vlib.seed() * 100 + k), "--cases", cases] + rotated, capture_output=True, text=True, timeout=900,
                                    env=env, errors="replace")
             except subprocess.TimeoutExpired:
                 chk.violation(f"threads run {k} ({label}) did not terminate")
@@ -63,16 +91,18 @@ def run(tier):
                               f"{p.stdout[-600:]} {p.stderr[-1800:]}")
             else:
                 kv = dict(x.split("=") for x in summ[0].split()[1:])
-                ops += int(kv["ops"]) + int(kv["shared_reads"])
+                ops += int(kv["ops"]) + int(kv["shared_reads"]) + int(kv["cases"])
                 chk.cov["traces_validated_against_impl"] += nthreads
     for st in streams:
         os.remove(st)
+    os.remove(cases)
     chk.phase("threads", runs=runs, threads=nthreads, operations=ops)
     chk.sample({"threads": nthreads, "stream_events_per_thread": n // nthreads, "seed": vlib.seed()})
     chk.cov["evaluations"] = ops
     chk.cov["distinct_nontrivial"] = ops
     chk.cov["rule"] = ("one evaluation = one operation executed by one of 8 concurrent threads on its own documents and "
-                       "compared with the sequential expectation, or one read of the shared document")
+                       "compared with the sequential expectation, one read of the shared document, or one reader case "
+                       "(deserialize, compare with the specification's value, serialize and read back)")
     chk.assumptions += ["schedules are sampled (seeds, yields), not enumerated: the model-level race analysis is exhaustive, "
                         "the implementation-level one is as strong as ThreadSanitizer's happens-before tracking on these runs",
                         "the default allocator is malloc/free (thread safe)"]
